@@ -1,12 +1,22 @@
 ------------------------------- MODULE MCMUC -------------------------------
 EXTENDS MUC
-St(ty, r, n, c, k) == [ty |-> ty, room |-> r, nick |-> n, call |-> c, n |-> k]
+St(ty, r, n, c, k) == [ty |-> ty, room |-> r, nick |-> n, call |-> c, n |-> k,
+                       lay |-> IF ty = "inv" THEN <<"u">> ELSE <<>>, pw |-> FALSE]
+(* an invitation message: children in document order, k <invite/> in the muc#user payload *)
+Inv(lay, k, pw) == [ty |-> "inv", room |-> "r1", nick |-> "-", call |-> "-", n |-> k, lay |-> lay, pw |-> pw]
+HasU(lay) == \E i \in 1..Len(lay) : lay[i] = "u"
+Layouts == {<<"u">>, <<"b", "u">>, <<"u", "b">>, <<"c">>, <<"b", "c">>, <<"c", "u">>, <<"u", "c">>,
+            <<"b", "u", "c">>, <<"c", "b", "u">>, <<"t", "b", "c">>}
 (* one room: every presence kind for both nicks, error answers, a foreign room, invitations *)
 Alpha1 == {St("av", "r1", "me", "-", 0), St("av", "r1", "ot", "-", 0),
            St("un", "r1", "me", "-", 0), St("un", "r1", "ot", "-", 0),
            St("av", "rx", "me", "-", 0)}
           \cup {St("er", "r1", "me", c, 0) : c \in CallSet}
-AlphaInv == {St("inv", "r1", "-", "-", k) : k \in 0..2} \cup {St("oth", "-", "-", "-", 0), St("un", "rx", "me", "-", 0)}
+AlphaInv == {Inv(l, k, pw) : l \in {l \in Layouts : HasU(l)}, k \in 0..2, pw \in BOOLEAN}
+            \cup {Inv(l, 0, pw) : l \in {l \in Layouts : ~HasU(l)}, pw \in BOOLEAN}
+            \cup {St("oth", "-", "-", "-", 0), St("un", "rx", "me", "-", 0)}
+(* error answers delivered whole or in two pieces, with the self-presences *)
+AlphaSplit == {St("av", "r1", "me", "-", 0), St("un", "r1", "me", "-", 0)} \cup {St("er", "r1", "me", c, 0) : c \in CallSet}
 (* two rooms: self-presences and errors only *)
 Alpha2 == {St(ty, r, "me", "-", 0) : ty \in {"av", "un"}, r \in {"r1", "r2"}}
           \cup {St("er", "r1", "me", c, 0) : c \in CallSet}
